@@ -167,6 +167,10 @@ impl NumericParser {
 
     pub fn done(&mut self) -> bool {
         let ret = self.subtotal.add(&mut self.tmp) && self.total.add(&mut self.subtotal);
+        if !ret {
+            // the number itself is malformed: a trailing separator must not make the caller join its prefix
+            return false;
+        }
         if self.has_hanging_point {
             self.error_state = Error::POINT;
             return false;
